@@ -37,8 +37,9 @@ RULE = ("cases from random.Random(seed): (A) structure_factor_mean on noise / wa
         "thresholds extrema / mean / otsu (exact); probes: cylindrical / polar / spherical grids (F16), absolute "
         "threshold and negative factor (F18); (C) structure_factor_maximum on plane waves with >= 4 "
         "cells per period at spacings 10^-3..10^3 (finite, within half a Fourier bin) with default smoothing (failures that "
-        "depend on the unit of length are the known finding F7) and with explicit unit-consistent widths 0.25 and 0.5 "
-        "bins at power-of-two stretches (covariance within 1e-3 bin); general fields with a unique highest mode (runner-up at another wave "
+        "depend on the unit of length are the known finding F7) and with an explicit unit-consistent width of 0.3 bins at the "
+        "same spacings (finite and within half a bin iff the first bracket of the smoothed model curve is valid, nan "
+        "otherwise) and widths 0.25 / 0.5 bins at power-of-two stretches (covariance within 1e-3 bin); general fields with a unique highest mode (runner-up at another wave "
         "number below 1 - 1e-6 of it): covariance, field scaling and rolling within one bin; "
         "distinct = distinct (method, case) descriptions")
 
@@ -276,7 +277,11 @@ def peak_bins(f, h: float, **kw) -> float:
     return h / L
 
 
-def prop_peak_wave(w: dict, decades, ctx, known_lines: list) -> list[dict]:
+def inp0(w: dict, h: float) -> dict:
+    return {**sc.canon(w), "spacing": h}
+
+
+def prop_peak_wave(w: dict, decades, ctx, known_lines: list, corr: list | None = None) -> list[dict]:
     fails = []
     kt, bin_ = wave_truth_bins(w)
     # default smoothing across spacings
@@ -305,6 +310,57 @@ def prop_peak_wave(w: dict, decades, ctx, known_lines: list) -> list[dict]:
                               "got_bins": sc.json_safe(res[e] / bin_), "want_bins": kt / bin_,
                               "by_spacing": {str(k): sc.json_safe(v / bin_) for k, v in res.items()}})
             break
+    # explicit unit-consistent width (0.3 Fourier bins, i.e. sigma given in wave-number units) at every spacing:
+    # finite and within half a bin whenever the FIRST bracket [max_est/5, max_est, 5 max_est] is valid for the smoothed
+    # model curve S (scipy needs S(b) > S(a), S(c); the windows 1 and 0.2 give a degenerate / the mirrored bracket);
+    # otherwise every minimiser call raises and the documented result is nan (peak_loop = None in Proofs/C17.v)
+    from droplets.image_analysis import get_structure_factor
+    for e in decades:
+        h = 10.0 ** e
+        f = wave_field(w, h)
+        sigma = 0.3 * sc.TWO_PI * bin_ / h
+        r = peak_bins(f, h, smoothing=sigma)
+        k0, s0 = get_structure_factor(f, smoothing=None, add_zero=True)
+        est = float(k0[1 + int(np.argmax(s0[1:]))])
+        S = sc.nw_model(sigma, np.asarray(k0, dtype=float), np.asarray(s0, dtype=float), np.array([est / 5, est, 5 * est]))
+        if len(w["shape"]) == 1:
+            # implementation-level counterparts of C17_plane_wave_peak_bin: premise dft_cosine on numpy's transform,
+            # and the start estimate equals the true wave number 2 pi q / (N h)
+            N, q = w["shape"][0], w["q"][0]
+            X2 = np.abs(np.fft.fftn(f.data, norm="ortho")) ** 2
+            tot = float(np.sum(f.data ** 2))
+            off = [m for m in range(1, N) if m not in (q, N - q)]
+            if (off and float(np.max(X2[off])) > 1e-12 * tot) or \
+                    not all(abs(float(X2[m]) - w["amp"] ** 2 * N / 4) <= 1e-9 * w["amp"] ** 2 * N for m in (q, N - q)):
+                if corr is not None:
+                    corr.append(f"oracle-spec:fftn premise dft_cosine fails on {json.dumps(inp0(w, h))}")
+            if not rel_close(est, sc.TWO_PI * q / (N * h), 1e-12):
+                fails.append({"what": "start estimate of the peak search is not the true wave number of the plane wave",
+                              "method": PEAK, "input": inp0(w, h), "got": est, "want": sc.TWO_PI * q / (N * h)})
+                break
+        margin = min(S[1] - S[0], S[1] - S[2])
+        if abs(margin) <= 1e-9 * float(np.max(np.abs(S))):
+            if ctx is not None:
+                ctx.count("peak_explicit_sigma", "knife-edge bracket (skipped)")
+            continue
+        inp = {**sc.canon(w), "spacing": h, "smoothing": sigma}
+        if margin > 0:
+            if not (math.isfinite(r) and abs(r - kt) <= 0.5 * bin_ * (1 + 1e-9)):
+                fails.append({"what": "structure_factor_maximum with a unit-consistent smoothing width (0.3 bins) on a resolved "
+                                      "plane wave is not finite and within half a Fourier bin although the bracket is valid",
+                              "method": PEAK, "smoothing": "0.3 bins", "input": inp,
+                              "got_bins": sc.json_safe(r / bin_), "want_bins": kt / bin_})
+                break
+            if ctx is not None:
+                ctx.count("peak_explicit_sigma", "valid bracket: finite, within half a bin")
+        else:
+            if math.isfinite(r):
+                if corr is not None:
+                    corr.append(f"peak loop: every bracket of the model curve is invalid but the implementation returned "
+                                f"{r / bin_:.3f} bins on {json.dumps(inp)}")
+                break
+            if ctx is not None:
+                ctx.count("peak_explicit_sigma", "invalid bracket (zero mode dominates): nan as modelled")
     # explicit, unit-consistent widths: exact power-of-two stretches must give the same wave number in bins
     for alpha in (0.25, 0.5):
         base = peak_bins(wave_field(w, 1.0), 1.0, smoothing=alpha * sc.TWO_PI * bin_)
@@ -469,7 +525,7 @@ def check(ctx: vlib.Ctx) -> int:
         ctx.count("kind", "plane wave")
         if i == 0:
             ctx.sample({"method": PEAK, **sc.canon(w), "spacings": [10.0 ** e for e in decades]})
-        failures.extend(prop_peak_wave(w, decades, ctx, known_f7))
+        failures.extend(prop_peak_wave(w, decades, ctx, known_f7, corr_bad))
     for i in range(boost * ctx.scale(20, 120)):
         c = sc.gen_case(rng, kind=rng.choice(["noise", "waves", "droplets"]), min_n=4)
         if float(np.ptp(sc.build(c))) == 0.0:
